@@ -56,6 +56,7 @@ def _b_worker(job):
     first_choice, sizes, maxpicks = job[:3]
     ypattern = job[3] if len(job) > 3 else "every"       # when a frame of stream Y follows an X frame: every / odd / even X feed
     counters = job[4] if len(job) > 4 else "pairwise"    # "consecutive": only neighbouring messages carry different counters
+    stray = len(job) > 5 and job[5] == "stray"           # late / duplicated frames of the PREVIOUS message between the frames of this one
     cs = [z3.BitVec("c%d" % i, 3) for i in range(len(sizes) + 1)]
     if counters == "consecutive":
         # what the property assumes and no more: consecutive messages differ; the first frame of every message arrives (the
@@ -108,7 +109,14 @@ def _b_worker(job):
             for _ in range(npicks):
                 if len(frames) < 2:
                     break
-                j = 1 + ex.choose(len(frames) - 1)   # any frame that follows the first frame, again and again (dup / reorder / omit)
+                prev = msgs[i - 1][1] if (stray and i >= 1 and not lost) else []
+                j = 1 + ex.choose(len(frames) - 1 + max(0, len(prev) - 1))   # any frame that follows the first frame, again and again (dup / reorder / omit)
+                if j >= len(frames):
+                    # a straggler of the previous message (another sequence counter): it must be ignored and must not disturb message i
+                    js = j - len(frames) + 1
+                    r, ry, k = feed_x(prev[js])
+                    events.append(("s", i - 1, js, r, len(calls), None, ry, k))
+                    continue
                 r, ry, k = feed_x(frames[j])
                 seen.add(j)
                 events.append(("x", i, j, r, len(calls), set(seen), ry, k))
@@ -142,10 +150,12 @@ def _b_worker(job):
         done = set()
         expect_calls = 0
         for (kind, i, j, r, ncalls, seen, ry, k) in events:
-            pay, frames = msgs[i] if kind == "x" else final
+            pay, frames = final if kind == "f" else msgs[i]
             complete_now = False
             if kind == "x":
                 complete_now = (i not in done) and len(seen) == len(frames)
+            elif kind == "s":
+                complete_now = False
             else:
                 complete_now = j == len(frames) - 1
             if complete_now:
@@ -220,7 +230,7 @@ def wit(m, pa, job, cs, msgs, final, ypay, events=None, yfr=None):
     fr = []
     if events is not None:
         for e in events:
-            pay, frames = msgs[e[1]] if e[0] == "x" else final
+            pay, frames = final if e[0] == "f" else msgs[e[1]]
             fr.append(("X", bytes(val(SymInt.lift(b)) for b in frames[e[2]].items).hex()))
             if e[7] is not None and yfr is not None:
                 fr.append(("Y", bytes(val(SymInt.lift(b)) for b in yfr[e[7]].items).hex()))
@@ -296,7 +306,7 @@ def run(tier, seed):
                   "stream Y": "13-byte messages from another source interleaved after every X frame, or after every other X frame (odd / even feeds)",
                   "bytes/padding/counters": "symbolic; consecutive counters distinct",
                   "stream identities (S)": "symbolic source/destination (8 bits each), 2 PGNs"}
-    rep.outside = ["histories longer than the bound", "more than two concurrent streams", "frames of a message arriving after the next message's first frame"]
+    rep.outside = ["histories longer than the bound", "more than two concurrent streams", "frames older than the previous message of the stream"]
     jobs = [(fc, sizes, maxp) for fc in (0, 1)] + [(fc, (27, 13), maxp) for fc in (0, 1)]
     # the second stream's frames after every other X frame only (two consecutive X frames with no foreign frame between them)
     mp4 = min(maxp, 4)        # the variants below keep the quick tier's pick bound in the thorough tier too (wall time)
@@ -305,6 +315,8 @@ def run(tier, seed):
     jobs += [(fc, (14, 7), mp4) for fc in (0, 1)] + [(0, (21, 14), 3)]
     # a message that fits into its first frame between two longer ones; only consecutive counters are assumed different
     jobs += [(0, (20, 5, 13), 2, "every", "consecutive"), (0, (13, 6, 13), 2, "odd", "consecutive")]
+    # stragglers: frames of the previous message (its counter) arriving between the frames of the next message of the stream
+    jobs += [(0, (13, 13), 3, "every", "consecutive", "stray"), (0, (20, 13), 3, "odd", "pairwise", "stray"), (0, (13, 20), 3, "even", "consecutive", "stray")]
     if tier == "thorough":
         jobs += [(fc, (13, 20), maxp) for fc in (0, 1)] + [(fc, (34, 7), maxp) for fc in (0, 1)] + [(fc, (20, 27), maxp) for fc in (0, 1)]
     ctx = mp.get_context("fork")
@@ -325,7 +337,7 @@ def run(tier, seed):
     rep.coverage.update(states=max(1, states), transitions=max(1, trans), traces_validated_against_impl=0,
                         explanation="states = explored histories (paths), transitions = frames fed to the real decoder")
     rep.assumptions = ["the messages of a history carry pairwise different sequence counters when first frames may be lost; when every first frame arrives only consecutive messages are assumed to differ (the property's own assumption)",
-                       "frames of a message are not delivered after the first frame of the next message on the stream"]
+                       "stragglers (frames of the previous message after the next message's first frame) are explored in the three 'stray' jobs only; the oracle there: ignored, and the message in progress is unaffected"]
     code = rep.finish(replay)
     return code
 
